@@ -23,6 +23,7 @@ RAW_HEADER_SETS = [
     [("content-type", "application/x-thing"), ("Vary", "Accept"), ("Vary", "Cookie"), ("Set-Cookie", "s=1"), ("Set-Cookie", "t=2"), ("Set-Cookie", "u=3")],
     [("Content-Type", "text/plain")],
     [],
+    [("Content-Type", "text/plain"), ("Set-Cookie", "p=1; Path=/caf\xe9"), ("Set-Cookie", "q=\xfc; HttpOnly"), ("X-Name", "J\xf6rg")],
 ]
 
 
@@ -62,7 +63,7 @@ class C20(Prop):
     components = {"real": ["baize.wsgi.middleware (NextRequest/NextResponse/ensure_next/middleware)", "baize.asgi.middleware (CachedStream/NextResponse/middleware)",
                            "baize.*.shortcut (request_response/decorator)", "all response classes", "tempfile.SpooledTemporaryFile"],
                   "stub": ["ASGI/WSGI server peers", "event loop clock/selector, executor inlined at seeded instants", "SimThreads for WSGI SSE"]}
-    hard_probes = ("depth_3", "editing_middleware", "raw_app_repeated_headers", "inner_raises_before_start", "inner_raises_after_start", "zerocopy_offered", "empty_file",
+    hard_probes = ("depth_3", "editing_middleware", "raw_app_repeated_headers", "raw_app_restarts_response", "raw_app_latin1_header", "inner_raises_before_start", "inner_raises_after_start", "zerocopy_offered", "empty_file",
                    "cached_stream_rolled_to_disk", "executor_latency")
     quick_runs = 120000
     thorough_runs = 1500000
@@ -96,7 +97,10 @@ class C20(Prop):
         elif inner_kind == "raw":
             plan["raw"] = {"status": t.choice([200, 201, 404, 299]), "reason": t.choice(["OK", "Fine", "Whatever You Say"]),
                            "headers": t.choice(RAW_HEADER_SETS), "chunks": [t.choice([b"a", b"bb", b"", b"chunk", b"x" * 70000]) for _ in range(t.draw(4))],
-                           "as_list": t.draw(2) == 0, "omit_headers_key": t.draw(5) == 0}
+                           "as_list": t.draw(2) == 0, "omit_headers_key": t.draw(5) == 0,
+                           # PEP 3333: start_response may be called again with exc_info before any body was sent
+                           "restart": t.choice([None, None, None, {"status": 500, "headers": [("Content-Type", "text/plain"), ("X-Error", "1")]},
+                                                {"status": 503, "headers": [("Set-Cookie", "err=1"), ("Retry-After", "5")]}])}
         stack = []
         depth = t.weighted([(1, 0), (3, 1), (3, 2), (2, 3)])
         for _ in range(depth):
@@ -156,6 +160,12 @@ class C20(Prop):
                 def app(environ, start_response):
                     counter["inner"] += 1
                     start_response("%d %s" % (raw["status"], raw["reason"]), list(raw["headers"]))
+                    if raw.get("restart"):
+                        try:
+                            raise InnerError("failed before the first chunk")
+                        except InnerError:
+                            import sys
+                            start_response("%d Error" % raw["restart"]["status"], list(raw["restart"]["headers"]), sys.exc_info())
                     if raw["as_list"]:
                         return list(raw["chunks"])
                     return iter(list(raw["chunks"]))
@@ -263,6 +273,10 @@ class C20(Prop):
             ctx.probe("editing_middleware")
         if plan["inner"] == "raw" and len({k.lower() for k, _ in plan["raw"]["headers"]}) < len(plan["raw"]["headers"]):
             ctx.probe("raw_app_repeated_headers")
+        if plan["inner"] == "raw" and plan["raw"].get("restart") and iface == "wsgi":
+            ctx.probe("raw_app_restarts_response")
+        if plan["inner"] == "raw" and any(ord(c) > 127 for _, v in plan["raw"]["headers"] for c in v):
+            ctx.probe("raw_app_latin1_header")
         if plan["inner"] == "view-raises":
             ctx.probe("inner_raises_before_start")
         if plan["inner"] == "view" and plan["recipe"].get("raise_at") is not None:
